@@ -268,7 +268,9 @@ func (w *c17QWorld) activeMappings(listen int64) int {
 	ms, _ := w.pmRepo.GetClientPortMappings(fmt.Sprint(listen))
 	n := 0
 	for _, m := range ms {
-		if m.ListenClientID == listen && m.Status == models.MappingStatusActive && !m.IsRevoked && !m.IsExpired() {
+		// the service counts every active mapping found in the client's index, whether the
+		// client is its listener or its target (activation.go step 5)
+		if (m.ListenClientID == listen || m.TargetClientID == listen) && m.Status == models.MappingStatusActive && !m.IsRevoked && !m.IsExpired() {
 			n++
 		}
 	}
@@ -369,7 +371,7 @@ func (w *c17QWorld) usable(cs c17QCase) int {
 	recs, _ := w.mem.QueryByPrefix(constants.KeyPrefixPortMapping+":", 0)
 	for _, js := range recs {
 		var m models.PortMapping
-		if json.Unmarshal([]byte(js), &m) == nil && m.ListenClientID == c17Listen && m.Status == models.MappingStatusActive && !m.IsRevoked && !m.IsExpired() {
+		if json.Unmarshal([]byte(js), &m) == nil && (m.ListenClientID == c17Listen || m.TargetClientID == c17Listen) && m.Status == models.MappingStatusActive && !m.IsRevoked && !m.IsExpired() {
 			n++
 		}
 	}
@@ -399,6 +401,168 @@ func (w *c17QWorld) interposedRead(cs c17QCase, node int) {
 	}
 	_, _ = svc.ListOutboundMappings(c17Listen)
 	_, _ = svc.ListInboundMappings(c17Listen)
+}
+
+// c17IndexWritersTrial (mapping quota): client X's mapping index has writers that hold
+// different quota locks: X's own activations (X = listener) and the activation, by
+// another client Y, of a code whose target is X. One of the two activations is
+// suspended before its j-th storage operation while the other runs to completion
+// (both orders, every j). Afterwards X keeps activating. Oracle, at quiescence: an
+// activation by X is refused whenever the active mappings of X that are really in the
+// store (X as listener or target: what the service counts) have reached the quota.
+func c17IndexWritersTrial(run *vk.Run, Q int, outer string, j int) int {
+	cs := c17QCase{Kind: "mapping-quota", Quota: Q, Prefill: Q - 2, N: 1, Mode: "index-writers|" + outer + "-suspended", Nodes: 1, Need: j}
+	w := c17NewQWorld(1000, Q, 1)
+	defer w.close()
+	reqs, probes, ok := c17Setup(w, cs)
+	if !ok {
+		run.Count("mapping-quota_prefill_refused", 1)
+		return 0
+	}
+	const clientY = c17Listen + 7
+	cx, err := w.createCode(c17Listen) // X is the target of this code; Y activates it
+	if err != nil {
+		return 0
+	}
+	actX := reqs[0]
+	actY := func() error { _, err := w.activate(cx.Code, clientY); return err }
+	first, second := actX, actY
+	if outer == "Y" {
+		first, second = actY, actX
+	}
+	run.Case("mapping-quota-index-writers", cs)
+	var opn atomic.Int64
+	var inside atomic.Bool
+	var served atomic.Int32
+	var blocked chan struct{}
+	w.g.SetHook(func(tier, op, key string) error {
+		if inside.Load() {
+			return nil
+		}
+		if n := opn.Add(1) - 1; int(n) == j {
+			inside.Store(true)
+			done := make(chan struct{})
+			go func() { defer close(done); _ = second() }()
+			select {
+			case <-done:
+				served.Add(1)
+			case <-time.After(30 * time.Millisecond): // blocked behind the suspended one (singleflight): let it resume
+				blocked = done
+			}
+			inside.Store(false)
+		}
+		return nil
+	})
+	_ = first()
+	w.g.SetHook(nil)
+	if blocked != nil {
+		select {
+		case <-blocked:
+		case <-time.After(c17Watchdog):
+			run.Count("watchdog", 1)
+			return int(opn.Load())
+		}
+	}
+	ops := int(opn.Load())
+	if j < 0 {
+		_ = second()
+	}
+	// quiescent from here on: X keeps activating
+	for i := 0; i < Q+3; i++ {
+		probe, _ := probes()
+		if probe == nil {
+			break
+		}
+		before := w.usable(cs)
+		err := probe()
+		if err == nil && before >= Q {
+			run.Violation("C17:mapping-quota|exceeded|admitted-at-full-quota-after-index-writers-raced", map[string]any{"case": cs,
+				"suspended_before_storage_op": j, "storage_ops": ops, "active_mappings_of_client_in_store_before": before,
+				"service_count_before": "lower (index entry lost)", "active_after": w.usable(cs), "quota": Q})
+			break
+		}
+		if err != nil {
+			break
+		}
+	}
+	run.Eval(1)
+	if served.Load() > 0 {
+		run.Count("mapping-quota_index_writer_positions", 1)
+	}
+	run.Distinct(fmt.Sprintf("mapping-quota|index-writers|%s|Q%d|op%d/%d|usable%d", outer, Q, j, ops, w.usable(cs)))
+	return ops
+}
+
+// c17ReadFaultTrial: the client is exactly at its quota; one more request is made while
+// the k-th storage READ of that request fails once (vk.ErrInjected). Oracle: a request
+// that fails leaves the store byte-identical; for the code quota (whose count aborts on
+// an unreadable record) the request is not admitted. Returns the number of reads seen.
+func c17ReadFaultTrial(run *vk.Run, kind string, Q, k int) int {
+	cs := c17QCase{Kind: kind, Quota: Q, Prefill: Q, N: 0, Mode: "read-fault", Nodes: 1, Need: k}
+	var w *c17QWorld
+	if kind == "code-quota" {
+		w = c17NewQWorld(Q, 1000, 1)
+	} else {
+		w = c17NewQWorld(1000, Q, 1)
+	}
+	defer w.close()
+	_, probes, ok := c17Setup(w, cs)
+	if !ok {
+		run.Count(kind+"_prefill_refused", 1)
+		return 0
+	}
+	probe, stillFine := probes()
+	if probe == nil {
+		return 0
+	}
+	run.Case(kind+"-read-fault", cs)
+	before := w.snapshot()
+	usable0 := w.usable(cs)
+	var reads atomic.Int64
+	var injected atomic.Bool
+	var faultAt string
+	w.g.SetHook(func(tier, op, key string) error {
+		if c17IsWrite(op) {
+			return nil
+		}
+		if n := reads.Add(1) - 1; int(n) == k {
+			injected.Store(true)
+			faultAt = op + ":" + key
+			return vk.ErrInjected
+		}
+		return nil
+	})
+	err := probe()
+	w.g.SetHook(nil)
+	after := w.snapshot()
+	run.Eval(1)
+	if injected.Load() {
+		run.Count(kind+"_read_faults_injected", 1)
+	}
+	run.Distinct(fmt.Sprintf("%s|read-fault|Q%d|k%d|%v", kind, Q, k, err == nil))
+	detail := map[string]any{"case": cs, "fault_at": faultAt, "usable_before": usable0, "usable_after": w.usable(cs), "quota": Q}
+	if err == nil {
+		if usable0 >= Q {
+			if kind == "code-quota" {
+				run.Violation("C17:code-quota|exceeded|admitted-at-full-quota-under-read-fault", detail)
+			} else {
+				// ActivateConnectionCode deliberately does not block on a failed quota query
+				// (activation.go step 5) and the mapping listing skips unreadable records:
+				// storage faults are outside this property's quantifier; recorded, not judged
+				run.Count("mapping-quota_admitted_at_full_quota_under_read_fault", 1)
+			}
+		}
+		return int(reads.Load())
+	}
+	detail["error"] = err.Error()
+	if d := c17SnapDiff(before, after); len(d) > 0 || !stillFine() {
+		if len(d) > 12 {
+			d = d[:12]
+		}
+		detail["store_diff"] = d
+		run.Violation("C17:"+kind+"|failed-request-changed-state|read-fault", detail)
+	}
+	return int(reads.Load())
 }
 
 // c17InterposeTrial runs ONE admission and serves a read-only request of the same client
@@ -716,6 +880,7 @@ func c17QuotaMonitor(t *testing.T, kind, name string) {
 	run.Rule(what + " with quota Q in {1,2,5}: fill to Q-1 (or Q-2), then N in {2,8,32} concurrent requests. mode hold: each request is held at its first mutating storage operation until K in {2..N} requests are there; " +
 		"mode free: spin barrier only; mode sched: every storage operation is a gate of vk.Sched with a seeded random chooser (N in {2,8}); mode explore: N=2, all schedules with <=2 (thorough: 3) preemptions (capped by runs and by total scheduling steps); 1 in 5 trials places the racers on two service nodes sharing the store. " +
 		"interposed-read: one admission with a lock-free read request of the same client (list codes / list mappings, node 0 or 1) served before its j-th storage operation, for every j, then admissions until refused; half of the sched trials add such a reader thread. " +
+		"index-writers (mapping quota): X's activation and the activation by Y of a code whose target is X, one suspended before each of its storage operations while the other completes, then X activates until refused; read-fault: at the quota, one more request whose k-th storage read fails once, every k. " +
 		"The quota is judged on max(service count, usable records found in the store). distinct = (mode, Q, prefill, N, K, admitted, racers between count and record) and schedule fingerprints")
 	pre := kind + "_"
 	phase := map[string]float64{}
@@ -724,6 +889,10 @@ func c17QuotaMonitor(t *testing.T, kind, name string) {
 	run.Floor(pre+"refusals_seen", 50)
 	run.Floor(pre+"seq_refusals_checked", 50)
 	run.Floor(pre+"interposed_positions", 20)
+	run.Floor(pre+"read_faults_injected", 5)
+	if kind == "mapping-quota" {
+		run.Floor("mapping-quota_index_writer_positions", 20)
+	}
 	r := run.Rand(kind)
 	reps := run.Pick(200, 2000)
 	if kind == "mapping-quota" {
@@ -767,6 +936,24 @@ func c17QuotaMonitor(t *testing.T, kind, name string) {
 			for j := 0; j < ops && j < 60 && run.Violations() < 20; j++ {
 				c17InterposeTrial(run, kind, Q, nodes, j)
 			}
+		}
+	}
+	if kind == "mapping-quota" {
+		// two writers of one client's index under different quota locks, one suspended at every storage operation
+		for _, Q := range []int{3, 5} {
+			for _, outer := range []string{"Y", "X"} {
+				ops := c17IndexWritersTrial(run, Q, outer, -1)
+				for j := 0; j < ops && j < 60 && run.Violations() < 20; j++ {
+					c17IndexWritersTrial(run, Q, outer, j)
+				}
+			}
+		}
+	}
+	// at the quota, one more request whose k-th storage read fails once, every k
+	for _, Q := range []int{1, 2, 3} {
+		reads := c17ReadFaultTrial(run, kind, Q, -1)
+		for k := 0; k < reads && k < 40 && run.Violations() < 20; k++ {
+			c17ReadFaultTrial(run, kind, Q, k)
 		}
 	}
 	mark("interposed")
